@@ -38,10 +38,13 @@ def make_handler_class(desper, env, name, events):
         ns[METHOD_OF[ev]] = make_cb(ev)
 
     def __hash__(self):
-        return env.rank.get(self.name, 0)
+        return 1 if env.equal else env.rank.get(self.name, 0)
 
     ns['__hash__'] = __hash__
-    ns['__eq__'] = lambda self, other: self is other
+    # handlers are individuals: in every third behaviour all of them compare EQUAL by value (and hash alike), as value
+    # objects such as dataclass components do - the dispatcher must still tell them apart
+    ns['__eq__'] = lambda self, other: (self is other) or (env.equal and getattr(other, '_verif_handler', False))
+    ns['_verif_handler'] = True
     # the truth value of a handler must never matter (an empty container-like component is still a listener)
     ns['__bool__'] = lambda self: not getattr(self, 'falsy', False)
     cls = type('H_' + name, (), ns)
@@ -71,6 +74,7 @@ class DispatcherAdapter:
         env.weak = {}
         env.d = self.desper.EventDispatcher()
         env.beh = {h: tuple(b) for h, b in init['beh'].items()}
+        env.equal = False
         hs = sorted(init['subs'])
         self.counter += 1
         perms = list(itertools.permutations(range(1, len(hs) + 1)))
@@ -86,6 +90,7 @@ class DispatcherAdapter:
             env.weak[h] = weakref.ref(o)
             del o
         env.behave = self._behave
+        env.equal = self.counter % 3 == 0
         self.orders = set()
 
     def _dispatch(self, e):
